@@ -81,8 +81,12 @@ def firstUnavailable (archs : List (Text × Universe)) (self : Text) (s : List P
 
 def handle (args : List String) : Option String :=
   match args with
+  | ["p.pure"] =>
+    -- C08: the model is a pure function of (universe, world); `C08.schedule_independent` and
+    -- `history_independent` say the caches cannot change that — the only admissible answer
+    some "consistent\tconsistent\t-"
   | op :: world :: self :: narch :: rest =>
-    if op != "r.resolve" && op != "r.avail" then none else
+    if op != "r.resolve" && op != "r.avail" && op != "r.corr" then none else
     match readArchs narch.toNat! rest with
     | some (archs, [go]) =>
       match lookupT archs (str self) with
@@ -99,7 +103,8 @@ def handle (args : List String) : Option String :=
           if go.startsWith "nondeterministic" then some (impl ++ "\tfail:nondeterministic\tunlisted")
           else some (impl ++ "\tpass\t-")
         | some s =>
-          if op = "r.resolve" then
+          if op = "r.corr" then some (impl ++ "\tpass\t-")   -- correspondence only (C08)
+          else if op = "r.resolve" then
             -- C02 oracle: the verified validator on Go's output
             match firstInvalid u w s with
             | some t => some (impl ++ "\tfail:" ++ describe t ++ "\t" ++ classOf flags)
